@@ -15,6 +15,11 @@ package main
 //	c/<s>/<id>/<name>/<roles>/<child>         Create through store s (0 = A, 1 = A1, 2 = A2)
 //	u/<s>/<id>/<name>/<roles>/<child>/<chk>   Update; chk = * (nil checker) | subset of "nrc" | -
 //	d/<s>/<id>                                DeleteById
+//	w/<s>/<filter>                            DeleteWhere (filter t | n1 | r1)
+//
+// The parent store's entity strategy validates the shared fields (strategies are user code): the
+// name "v9" is reserved and more than three roles are refused, each reported on the persist
+// context's bucket and only when the field checker lets the field be written.
 //
 // output line: one segment per transaction (see lean/StorageModel/Driver/C15.lean), with the
 // answers of FindById / QueryIds / IterateIds / IterateValidIds through each store, the parent
@@ -109,7 +114,23 @@ func (c15ThingStrategy) FillEntity(e *c15Thing, bucket *boltz.TypedBucket) {
 func (c15ThingStrategy) PersistEntity(e *c15Thing, ctx *boltz.PersistContext) {
 	ctx.SetString("name", e.Name)
 	ctx.SetStringList("roles", e.Roles)
+	if ctx.ProceedWithSet("name") && e.Name == c15ReservedName {
+		ctx.Bucket.SetError(errC15ReservedName)
+	}
+	if ctx.ProceedWithSet("roles") && len(e.Roles) > c15MaxRoles {
+		ctx.Bucket.SetError(errC15TooManyRoles)
+	}
 }
+
+const (
+	c15ReservedName = "v9"
+	c15MaxRoles     = 3
+)
+
+var (
+	errC15ReservedName = errors.New("c15: the name is reserved")
+	errC15TooManyRoles = errors.New("c15: a thing may have at most three roles")
+)
 
 type c15Ext1Strategy struct{ parent *boltz.BaseStore[*c15Thing] }
 
@@ -265,6 +286,7 @@ type c15Op struct {
 	roles  []int
 	child  *int
 	chk    *string // nil = nil checker
+	filter string  // DeleteWhere
 	source string
 }
 
@@ -279,6 +301,10 @@ func c15ParseOp(s string) c15Op {
 		return n
 	}
 	op.sel = atoi(f[1])
+	if op.kind == 'w' {
+		op.filter = f[2]
+		return op
+	}
 	op.id = atoi(f[2])
 	if op.kind == 'd' {
 		return op
@@ -345,6 +371,12 @@ func c15ErrStr(err error) string {
 	if boltz.IsErrNotFoundErr(err) {
 		return "notfound"
 	}
+	if errors.Is(err, errC15ReservedName) {
+		return "invalid:name"
+	}
+	if errors.Is(err, errC15TooManyRoles) {
+		return "invalid:roles"
+	}
 	msg := err.Error()
 	switch {
 	case strings.Contains(msg, "blank id"):
@@ -379,6 +411,12 @@ func (s *c15Stores) apply(ctx boltz.MutateContext, op *c15Op) error {
 		default:
 			return s.a2.Update(ctx, &c15Ext2{c15Thing: t, Colour: op.childVal()}, op.checker())
 		}
+	case 'w':
+		text, ok := c15FilterText[op.filter]
+		if !ok {
+			panic("bad filter in case: " + op.source)
+		}
+		return []boltz.Store{s.a, s.a1, s.a2}[op.sel].DeleteWhere(ctx, text)
 	default:
 		switch op.sel {
 		case 0:
@@ -693,11 +731,14 @@ func (g *c15GenState) nameOk(self int, name int) bool {
 
 func c15Roles(r *rng) string {
 	n := r.intn(4)
+	if r.chance(1, 14) {
+		n = 4 // one more than the parent strategy accepts
+	}
 	if n == 0 {
 		return "-"
 	}
 	var out []string
-	for i := 0; i < n && i < 3; i++ {
+	for i := 0; i < n; i++ {
 		out = append(out, strconv.Itoa(1+r.intn(3)))
 	}
 	return strings.Join(out, ".")
@@ -717,6 +758,9 @@ func c15Child(r *rng) string {
 func c15Name(r *rng, g *c15GenState, self int) int {
 	if r.chance(1, 16) {
 		return 0
+	}
+	if r.chance(1, 20) {
+		return 9 // the name the parent strategy refuses
 	}
 	taken := map[int]bool{}
 	for id, n := range g.name {
@@ -765,6 +809,20 @@ func c15GenOp(r *rng, g *c15GenState, allowFinding bool, solo bool) string {
 	k := r.intn(20)
 	if len(g.existing()) == 0 && r.chance(9, 10) {
 		k = 0 // nothing to update or delete yet
+	}
+	if k >= 16 && r.chance(1, 4) { // DeleteWhere instead of DeleteById
+		sel := r.intn(3)
+		f := pick(r, []string{"t", "n1", "r1", "r1"})
+		for _, id := range g.existing() {
+			owned := sel != 1 || g.c1[id]
+			if owned && (f == "t" || (f == "n1" && g.name[id] == 1) || (f == "r1" && r.chance(1, 2))) {
+				delete(g.parent, id)
+				delete(g.c1, id)
+				delete(g.c2, id)
+				delete(g.name, id)
+			}
+		}
+		return fmt.Sprintf("w/%d/%s", sel, f)
 	}
 	switch {
 	case k < 7: // create
@@ -875,6 +933,25 @@ func c15Gen(tier string, seed uint64, out *bufio.Writer) {
 			for _, second := range []string{"u/%d/1/2/2/2/*", "u/%d/1/3/-/n/n", "u/%d/1/4/1.3/1/rc", "u/%d/1/4/3/3/*", "d/%d/1", "c/%d/1/2/2/1"} {
 				fmt.Fprintf(out, "h c/0/2/3/1/n;c/1/3/2/2/3;c/%d/1/1/1.2/1;%s;d/0/2\n", cs, fmt.Sprintf(second, os_))
 				fmt.Fprintf(out, "g c/0/2/3/1/n;c/1/3/2/2/3;c/%d/1/1/1.2/1;%s;d/0/2\n", cs, fmt.Sprintf(second, os_))
+			}
+		}
+	}
+	// DeleteWhere through every store with every filter over a mixed population (plain parents 2 and 4,
+	// A1 entity 3, A2 entity 1), then the freed name is taken again
+	for sel := 0; sel < 3; sel++ {
+		for _, f := range []string{"t", "n1", "r1"} {
+			for _, kind := range []string{"h", "g"} {
+				fmt.Fprintf(out, "%s c/0/2/3/1/n;c/1/3/2/2.1/3;c/2/1/1/1.2/1;c/0/4/4/-/n;w/%d/%s;c/0/4/1/-/n,c/1/2/2/3/3\n", kind, sel, f)
+			}
+		}
+	}
+	// shared-field values the parent strategy refuses (name 9, four roles), through every route: create
+	// through each store; update / patch of an entity created through cs issued through the parent and through cs
+	for cs := 0; cs < 3; cs++ {
+		fmt.Fprintf(out, "h c/%d/2/9/1/1;c/%d/2/2/1.1.2.3/1;c/%d/2/9/1.2.3.1/n;c/%d/2/2/1.2.3/2\n", cs, cs, cs, cs)
+		for _, route := range []int{0, cs} {
+			for _, u := range []string{"u/%d/1/9/2/1/*", "u/%d/1/2/1.2.3.1/1/*", "u/%d/1/9/2/1/r", "u/%d/1/2/1.2.3.1/1/n", "u/%d/1/9/1.2.3.1/1/nr", "u/%d/1/9/1.2.3.1/1/c", "u/%d/1/0/1.2.3.1/1/*"} {
+				fmt.Fprintf(out, "h c/%d/1/1/1/1;%s;u/%d/1/3/3/3/*\n", cs, fmt.Sprintf(u, route), route)
 			}
 		}
 	}
